@@ -100,13 +100,22 @@ def theorem_at(path, line):
     return name
 
 
+def property_modules(prop):
+    """Properties/<prop>.lean and its continuation files Properties/<prop>_*.lean (all in namespace Fp.<prop>)."""
+    import glob
+    extra = sorted(os.path.basename(f)[:-5] for f in glob.glob(f'{LEAN}/FpVerif/Properties/{prop}_*.lean'))
+    return [prop] + extra
+
+
 def property_theorems(prop):
-    """Names of the theorems declared in Properties/<prop>.lean (namespace Fp.<prop>)."""
-    src = open(f'{LEAN}/FpVerif/Properties/{prop}.lean').read()
-    src_nc = re.sub(r'/-.*?-/', '', src, flags=re.S)
-    src_nc = re.sub(r'--.*', '', src_nc)
-    names = re.findall(r'^\s*theorem\s+([A-Za-z0-9_\.\']+)', src_nc, re.M)
-    examples = len(re.findall(r'^\s*example\b', src_nc, re.M))
+    """Names of the theorems declared in Properties/<prop>.lean and Properties/<prop>_*.lean (namespace Fp.<prop>)."""
+    names, examples = [], 0
+    for mod in property_modules(prop):
+        src = open(f'{LEAN}/FpVerif/Properties/{mod}.lean').read()
+        src_nc = re.sub(r'/-.*?-/', '', src, flags=re.S)
+        src_nc = re.sub(r'--.*', '', src_nc)
+        names += re.findall(r'^\s*theorem\s+([A-Za-z0-9_\.\']+)', src_nc, re.M)
+        examples += len(re.findall(r'^\s*example\b', src_nc, re.M))
     return names, examples
 
 
@@ -115,11 +124,12 @@ def audit(prop):
     Returns dict(ok, theorems=[{name, axioms}], examples, errors, forbidden)."""
     names, examples = property_theorems(prop)
     os.makedirs(f'{LEAN}/Audit', exist_ok=True)
-    body = f'import FpVerif.Properties.{prop}\n' + ''.join(f'#print axioms Fp.{prop}.{n}\n' for n in names)
+    mods = property_modules(prop)
+    body = ''.join(f'import FpVerif.Properties.{m}\n' for m in mods) + ''.join(f'#print axioms Fp.{prop}.{n}\n' for n in names)
     apath = f'{LEAN}/Audit/{prop}.lean'
     if not os.path.exists(apath) or open(apath).read() != body:
         open(apath, 'w').write(body)
-    ok, out = lake_build([f'FpVerif.Properties.{prop}'])
+    ok, out = lake_build([f'FpVerif.Properties.{m}' for m in mods])
     res = {'ok': ok, 'theorems': [], 'examples': examples, 'errors': [], 'forbidden': [], 'bad_axioms': []}
     if not ok:
         res['errors'] = lean_errors(out)
